@@ -263,3 +263,166 @@ func nonNegative(info *types.Info, f cfgq.Fact, o types.Object) bool {
 	}
 	return false
 }
+
+// libSearchFor lists the library searches (strings/bytes Index*, LastIndex*)
+// for the byte ch in body: the call, the text searched, whether it finds the
+// last occurrence, and the single-assignment variable receiving the result.
+type libHit struct {
+	call   *ast.CallExpr
+	in     ast.Expr
+	last   bool
+	result types.Object
+}
+
+func libSearchFor(info *types.Info, body ast.Node, ch int64) []libHit {
+	var out []libHit
+	ast.Inspect(body, func(n ast.Node) bool {
+		call, ok := n.(*ast.CallExpr)
+		f := core.CalleeFunc(info, orCallExpr(call))
+		if !ok || f == nil || f.Pkg() == nil || f.Pkg().Path() != "strings" && f.Pkg().Path() != "bytes" || len(call.Args) != 2 {
+			return true
+		}
+		last := false
+		switch f.Name() {
+		case "IndexByte", "IndexRune", "Index":
+		case "LastIndexByte", "LastIndex":
+			last = true
+		default:
+			return true
+		}
+		got := int64(-1)
+		if v, ok := core.IntConst(info, call.Args[1]); ok {
+			got = v
+		} else if sv, ok := core.StringConst(info, call.Args[1]); ok && len(sv) == 1 {
+			got = int64(sv[0])
+		}
+		if got == ch {
+			out = append(out, libHit{call: call, in: call.Args[0], last: last})
+		}
+		return true
+	})
+	for i := range out {
+		ast.Inspect(body, func(n ast.Node) bool {
+			if as, ok := n.(*ast.AssignStmt); ok && len(as.Lhs) == 1 && len(as.Rhs) == 1 && ast.Unparen(as.Rhs[0]) == ast.Expr(out[i].call) {
+				out[i].result = objOf(info, as.Lhs[0])
+			}
+			return true
+		})
+	}
+	return out
+}
+
+// mixedClose: the '{' is found by a hand-written test (position variable
+// open), the '}' by one library search. The search must run over the text that
+// starts at the '{' found (key[open:] or key[open+1:]); a search over the whole
+// key is wrong: a '}' in front of the '{' shadows the real one (key "a}b{tag}c").
+func mixedClose(c *core.Ctx, s *scan, fn *core.Fn, name string, openEdge [2]interface{}, open types.Object, slices []*ast.SliceExpr) bool {
+	info := s.info
+	hits := libSearchFor(info, fn.Decl.Body, '}')
+	if len(hits) != 1 || hits[0].result == nil || open == nil {
+		return false
+	}
+	h := hits[0]
+	if rhs, other := defsOf(info, fn.Decl.Body, h.result); len(rhs) != 1 || other != 0 {
+		return false
+	}
+	s.again("first-open", openEdge, open, '{', nil, `"{a}{b}" hashes "b", "{}{x}" hashes "x" instead of the whole key`,
+		"after a '{' was found the scan goes on looking for further '{' and overwrites the tag: the last {...} wins, the specification takes the first '{' only")
+	c.Check("R3.tag", name+"/first-close", h.call.Pos(), !h.last,
+		fmt.Sprintf("%s finds the LAST '}': the specification ends the tag at the first '}' after the first '{' (key \"{a}b}\" hashes \"a}b\")", c.Src(h.call.Fun)))
+	// where does the search start, relative to the '{' ?
+	whole := objOf(info, strip(info, h.in)) == s.key
+	off, rel := int64(0), false
+	if se, ok := ast.Unparen(h.in).(*ast.SliceExpr); ok && objOf(info, se.X) == s.key && se.High == nil && se.Low != nil {
+		off, rel = offsetFrom(info, se.Low, open)
+	}
+	switch {
+	case whole:
+		c.Check("R3.tag", name+"/scan-start", h.call.Pos(), false,
+			fmt.Sprintf("the search for '}' runs over the whole key (%s), not over the text after the '{' found: a '}' in front of the '{' is found first, so for \"a}b{tag}c\" no tag is recognised and the whole key is hashed instead of \"tag\"", c.Src(h.call)))
+	case rel:
+		c.Check("R3.tag", name+"/scan-start", h.call.Pos(), off == 0 || off == 1,
+			fmt.Sprintf("the search for '}' must start at the '{' found (found %s): a '}' before the '{' must be ignored, an empty tag {} must be seen", c.Src(h.in)))
+	default:
+		c.Undecidedf("R3.tag", name+"/scan-start", h.call.Pos(), "cannot relate the text searched for '}' (%s) to the position of '{'", c.Src(h.in))
+	}
+	// tag = key[open+1 : position of '}'] with the position being off+result (relative search) or result (whole key)
+	for _, se := range slices {
+		if se.High == nil || se.Low == nil {
+			continue // key[open+1:] handed to the search
+		}
+		lo, lok := offsetFrom(info, se.Low, open)
+		// High = co*open + cr*result + k
+		var lin2 func(e ast.Expr, depth int) (co, cr, k int64, ok bool)
+		lin2 = func(e ast.Expr, depth int) (int64, int64, int64, bool) {
+			e = strip(info, e)
+			if v, isC := core.IntConst(info, e); isC {
+				return 0, 0, v, true
+			}
+			switch x := e.(type) {
+			case *ast.Ident:
+				switch objOf(info, x) {
+				case open:
+					return 1, 0, 0, true
+				case h.result:
+					return 0, 1, 0, true
+				}
+				if rhs, other := defsOf(info, fn.Decl.Body, objOf(info, x)); depth < 4 && len(rhs) == 1 && other == 0 && rhs[0] != nil {
+					return lin2(rhs[0], depth+1)
+				}
+			case *ast.BinaryExpr:
+				a1, b1, k1, ok1 := lin2(x.X, depth+1)
+				a2, b2, k2, ok2 := lin2(x.Y, depth+1)
+				if ok1 && ok2 && x.Op == token.ADD {
+					return a1 + a2, b1 + b2, k1 + k2, true
+				}
+				if ok1 && ok2 && x.Op == token.SUB {
+					return a1 - a2, b1 - b2, k1 - k2, true
+				}
+			}
+			return 0, 0, 0, false
+		}
+		co, cr, k, hok := lin2(se.High, 0)
+		switch {
+		case !lok || !hok || !(whole || rel):
+			c.Undecidedf("R3.tag", name+"/bounds", se.Pos(), "tag slice %s is not expressed through the positions of the two braces", c.Src(se))
+		case whole:
+			c.Check("R3.tag", name+"/bounds", se.Pos(), lo == 1 && co == 0 && cr == 1 && k == 0,
+				fmt.Sprintf("the tag must be key[open+1 : close] (found %s)", c.Src(se)))
+		default:
+			c.Check("R3.tag", name+"/bounds", se.Pos(), lo == 1 && co == 1 && cr == 1 && k == off,
+				fmt.Sprintf("the tag must be key[open+1 : close], the '}' sitting at open+%d+result of the search (found %s): otherwise a brace is hashed with the tag or the tag is cut at the wrong place", off, c.Src(se)))
+		}
+	}
+	// the tag is cut only when '}' was found
+	g := s.g
+	for _, se := range slices {
+		if se.High == nil {
+			continue
+		}
+		if p, ok := g.Find(se); ok {
+			okF, _ := onlyVia(g, p, func(f cfgq.Fact) bool {
+				if nonNegative(info, f, h.result) {
+					return true
+				}
+				// `k > open` for a search over the whole key also implies k >= 0
+				be, isBin := ast.Unparen(f.Expr).(*ast.BinaryExpr)
+				if !isBin {
+					return false
+				}
+				x, y, op := be.X, be.Y, be.Op
+				if objOf(info, strip(info, y)) == h.result {
+					x, y = y, x
+					op = map[token.Token]token.Token{token.LSS: token.GTR, token.GTR: token.LSS, token.LEQ: token.GEQ, token.GEQ: token.LEQ}[op]
+				}
+				return objOf(info, strip(info, x)) == h.result && objOf(info, strip(info, y)) == open && f.Val && (op == token.GTR || op == token.GEQ)
+			})
+			if okF {
+				c.Okf("R3.tag", name+"/not-found", se.Pos(), "the tag is cut only when '}' was found")
+			} else {
+				c.Undecidedf("R3.tag", name+"/not-found", se.Pos(), "cannot see that the tag is cut only when '}' was found")
+			}
+		}
+	}
+	return true
+}
